@@ -2,7 +2,7 @@
 """usage: run_all_seeded.py [-j N] [seed-dir ...]   (default: every directory under /verif/seeded)
 Runs tools/run_seeded_wt.py for every seeded change, N at a time, each in its own scratch worktree /tmp/wt/pool<k>
 (created from /repo's HEAD when missing, removed at the end).  /repo itself is never touched."""
-import sys, os, subprocess, glob
+import sys, os, subprocess, glob, json
 from concurrent.futures import ThreadPoolExecutor
 import queue
 args = sys.argv[1:]
@@ -20,7 +20,15 @@ for k in range(n):
 def work(d):
     wt = pool.get()
     try:
-        r = subprocess.run(["python3", "/verif/tools/run_seeded_wt.py", d, wt], capture_output=True, text=True)
+        props = []
+        if os.environ.get("SEEDED_TARGET_ONLY") == "1":
+            # defect-seeding changes: only the check of the property the change was written against (behaviour-preserving ones: all)
+            try:
+                tgt = json.load(open(os.path.join(d, "meta.json"))).get("breaks_property")
+            except Exception:
+                tgt = None
+            props = [tgt] if tgt else []
+        r = subprocess.run(["python3", "/verif/tools/run_seeded_wt.py", d, wt] + props, capture_output=True, text=True)
         last = (r.stdout.strip().splitlines() or ["?"])[-1]
         print(last if r.returncode == 0 else f"{os.path.basename(d)} FAILED rc={r.returncode}: {r.stderr[-300:]}", flush=True)
     finally:
